@@ -99,8 +99,10 @@ class P:
             return E({"_dst": "d", "_src": "s"}[r], "u64")
         if t == "insn":
             self.eat("."); f = self.eat()
+            if f == "off": return E("off", "i16")
             if f != "imm": raise SyntaxError("insn." + f)
             return E("imm", "i32")
+        if t == "mem_base": return E("memBase", "u64")
         if t == "unsigned_u64":
             self.eat("!"); self.eat("("); a = self.expr(); self.eat(")")
             return cast(cast(a, "u32"), "u64")
@@ -200,6 +202,98 @@ def arm_body(text):
     if p.peek() is not None: raise SyntaxError("trailing tokens")
     return "alu", ("some %s" % new) if w else "none"
 
+def mem_arm(name, head, body):
+    """one arm of the LD (abs/ind), LDX, ST, STX classes.  head: text between `=>` and `unsafe {`; body: inside the braces."""
+    dst0 = None
+    h = " ".join(head.split())
+    if h == "reg[0] =": dst0 = True
+    elif h == "reg[_dst] =": dst0 = False
+    elif h != "": raise SyntaxError("arm head `%s`" % h)
+    body = re.sub(r'"(?:[^"\\\\]|\\\\.)*"', '""', body)                 # string literals (format strings contain braces)
+    prot = body
+    for _ in range(4):                                                     # protect `;` inside nested braces, innermost first
+        prot = re.sub(r"\{[^{}]*\}", lambda m: m.group(0).replace(";", "\x00").replace("{", "\x01").replace("}", "\x02"), prot)
+    stmts = [" ".join(x.split()) for x in prot.split(";")]
+    stmts = [x.replace("\x00", ";").replace("\x01", "{").replace("\x02", "}") for x in stmts if x.strip()]
+    m = re.fullmatch(r"let x = (.*)", stmts[0])
+    if not m: raise SyntaxError("first statement is not `let x = …`")
+    ae = m.group(1); ptr_ty = None
+    mm = re.fullmatch(r"(.*) as \*(?:const|mut) (u8|u16|u32|u64)", ae)
+    if mm: ae, ptr_ty = mm.group(1), mm.group(2)
+    # the pointer arithmetic `(reg[R] as *const u8).wrapping_offset(insn.off as isize)` is byte-wise: reg[R] + sign-extended offset, wrapping
+    plain_add = False
+    pm = re.fullmatch(r"\(reg\[(_dst|_src)\] as \*const u8\)\.wrapping_offset\(insn\.off as isize\)", ae)
+    if pm:
+        if ptr_ty is None: ptr_ty = "u8"
+        addr = "(%s + (BitVec.signExtend 64 off))" % {"_dst": "d", "_src": "s"}[pm.group(1)]
+        ovf = None
+    else:
+        if ptr_ty is None: raise SyntaxError("address without pointer type")
+        p = P(tokenize(ae)); e = p.expr()
+        if p.peek() is not None or e.ty != "u64": raise SyntaxError("address expression")
+        addr = e.lean
+        # a plain `+` on u64 panics on overflow in the harness build: record the operands
+        pl = re.fullmatch(r"\(mem_base \+ (.*)\)", ae)
+        ovf = None
+        if pl:
+            q = P(tokenize(pl.group(1))); r = q.expr()
+            ovf = "(BitVec.toNat memBase + BitVec.toNat %s)" % r.lean
+        elif "+" in ae: raise SyntaxError("plain + in an address of another shape")
+    m = re.fullmatch(r"check_mem_(load|store)\(x as u64, (\d+), insn_ptr\)\?", stmts[1])
+    if not m: raise SyntaxError("second statement is not check_mem_*")
+    ck, cw = m.group(1), int(m.group(2))
+    aw = BITS[ptr_ty] // 8
+    rest = stmts[2:]
+    if ck == "load":
+        if dst0 is None: raise SyntaxError("load without destination")
+        if len(rest) != 1 or rest[0] not in ("x.read_unaligned() as u64", "x.read_unaligned()"): raise SyntaxError("load tail")
+        return dict(kind=0, dst0=dst0, cw=cw, aw=aw, al=0, addr=addr, ovf=ovf, val="0")
+    if dst0 is not None: raise SyntaxError("store with a destination register")
+    if len(rest) == 1:
+        m = re.fullmatch(r"x\.write_unaligned\((.*)\)", rest[0])
+        if not m: raise SyntaxError("store tail")
+        p = P(tokenize(m.group(1))); v = p.expr()
+        if p.peek() is not None or v.ty == "lit" or BITS[v.ty] // 8 != aw: raise SyntaxError("stored value type")
+        return dict(kind=1, dst0=False, cw=cw, aw=aw, al=0, addr=addr, ovf=ovf, val=cast(E(v.lean, "u" + str(BITS[v.ty])), "u64").lean)
+    # atomic add: let add = V; let addr = x as usize; if addr.is_multiple_of(core::mem::align_of::<uN>()) { let a = x as *const AtomicUN; let _prev = (*a).fetch_add(add, Ordering::Relaxed); } else { Err(..)?; }
+    m = re.fullmatch(r"let add = (.*)", rest[0])
+    if not m or rest[1] != "let addr = x as usize": raise SyntaxError("atomic add head")
+    p = P(tokenize(m.group(1))); v = p.expr()
+    if p.peek() is not None or v.ty == "lit" or BITS[v.ty] // 8 != aw: raise SyntaxError("atomic addend type")
+    m = re.fullmatch(r"if addr\.is_multiple_of\(core::mem::align_of::<(u32|u64)>\(\)\) \{ let a = x as \*const Atomic(U32|U64); let _prev = \(\*a\)\.fetch_add\(add, Ordering::Relaxed\); \} else \{ Err\(.*\)\?; \}", rest[2])
+    if not m or len(rest) != 3 or m.group(2).lower() != m.group(1): raise SyntaxError("atomic add body")
+    if BITS[m.group(1)] // 8 != aw: raise SyntaxError("atomic type")
+    return dict(kind=2, dst0=False, cw=cw, aw=aw, al=BITS[m.group(1)] // 8, addr=addr, ovf=ovf, val=cast(E(v.lean, "u" + str(BITS[v.ty])), "u64").lean)
+
+def gen_mem(consts, body, out_path):
+    arm_re = re.compile(r"ebpf::([A-Z0-9_]+)\s*=>\s*([^\n{]*?)unsafe\s*\{((?:[^{}]|\{(?:[^{}]|\{[^{}]*\})*\})*)\}\s*,")
+    rows = []
+    for m in arm_re.finditer(body):
+        name = m.group(1)
+        if name not in consts or (consts[name] & 7) > 3 or name == "LD_DW_IMM": continue
+        try: rows.append((consts[name], name, mem_arm(name, m.group(2), m.group(3)), None))
+        except Exception as ex: rows.append((consts[name], name, None, str(ex)))
+    out = ["/- GENERATED by checklib/gen_interp.py from the memory-instruction arms of src/interpreter.rs on every run of ./check: do not edit -/",
+           "namespace Rbpf.Generated", "",
+           "/-- what the arm does: kind 0 load / 1 store / 2 atomic add; loads write reg[0] (`dst0`) or reg[_dst]; the length handed to",
+           "    `check_mem_*`; the width of the pointer type actually read / written; the alignment the atomic add requires -/",
+           "structure MemArm where", "  kind : Nat", "  dst0 : Bool", "  checkWidth : Nat", "  accessWidth : Nat", "  alignWidth : Nat", "deriving DecidableEq, Repr", "",
+           "def memArm (opc : Nat) : Option MemArm :=", "  match opc with"]
+    for (o, n, a, err) in rows:
+        out.append("  | %d => %s   -- %s%s" % (o, ("some ⟨%d, %s, %d, %d, %d⟩" % (a["kind"], "true" if a["dst0"] else "false", a["cw"], a["aw"], a["al"])) if a else "none", n, "" if a else ": not translated: " + err.replace("-/", "- /")))
+    out += ["  | _ => none", "", "/-- the address `x` of the access (`none`: the plain `+` of the source overflows, a panic in the harness build) -/",
+            "def memAddr (opc : Nat) (d s : BitVec 64) (imm : BitVec 32) (off : BitVec 16) (memBase : BitVec 64) : Option (BitVec 64) :=", "  match opc with"]
+    for (o, n, a, err) in rows:
+        if a: out.append("  | %d => %s   -- %s" % (o, ("(if %s ≥ 2 ^ 64 then none else some %s)" % (a["ovf"], a["addr"])) if a["ovf"] else "some %s" % a["addr"], n))
+    out += ["  | _ => none", "", "/-- the value stored / added, zero-extended to 64 bits (0 for loads) -/",
+            "def memValue (opc : Nat) (s : BitVec 64) (imm : BitVec 32) : BitVec 64 :=", "  match opc with"]
+    for (o, n, a, err) in rows:
+        if a and a["kind"] != 0: out.append("  | %d => %s   -- %s" % (o, a["val"], n))
+    out += ["  | _ => 0", "", "def memOpcodes : List Nat := [%s]" % ", ".join(str(o) for (o, n, a, e) in rows), "", "end Rbpf.Generated", ""]
+    new = "\n".join(out)
+    if not os.path.exists(out_path) or open(out_path).read() != new: open(out_path, "w").write(new)
+    print(len(rows), "memory arms", sum(1 for r in rows if r[2] is None), "not translated")
+
 def main():
     consts = ebpf_consts(os.path.join(REPO_SRC, "ebpf.rs"))
     src = open(os.path.join(REPO_SRC, "interpreter.rs")).read()
@@ -259,6 +353,7 @@ def main():
     new = "\n".join(out)
     os.makedirs(os.path.dirname(OUT), exist_ok=True)
     if not os.path.exists(OUT) or open(OUT).read() != new: open(OUT, "w").write(new)
+    gen_mem(consts, body, os.path.join(os.path.dirname(OUT), "InterpMem.lean"))
     bad = sum(1 for o in order for (_, _, k, _) in arms[o] if k == "err")
     print(len(alu), "alu arms", len(jmp), "jump arms", bad, "not translated")
 
